@@ -437,6 +437,34 @@ def run(ctx):
                                    q_, sorted(required_kw - given), short(c_, 60)),
                                construct='%s: %s' % (q_, short(c_, 50)))
 
+    # ---- R18m: shorthand methods forward every option
+    ctx.rule('R18m', 'every named parameter of the shorthand methods of the argument-info classes is used (reaches the '
+                     'forwarded call): an option accepted but not forwarded silently takes its default', 4)
+    for q_, f_ in sorted(pim.functions.items()):
+        if f_.name.startswith('__') or not f_.args.args:
+            continue
+        names_ = {x.id for x in ast.walk(f_) if isinstance(x, ast.Name) and isinstance(x.ctx, ast.Load)}
+        for a_ in list(f_.args.args[1:]) + list(f_.args.kwonlyargs):
+            ctx.decide('R18m', a_.arg in names_, pim, f_, '%s: parameter %s is used' % (q_, a_.arg),
+                       '%s accepts the option %s but never uses it: the call it forwards to runs with that option at '
+                       'its default (repeated keys are concatenated whatever policy was asked for)' % (q_, a_.arg),
+                       construct='%s(%s)' % (q_, a_.arg), trivial=True)
+
+    # ---- R18n: None placeholders in a node list
+    ctx.rule('R18n', 'a loop over a node list that compares its element with None reads attributes of the element only '
+                     'where it is known not to be None (grules.loop_var_none_deref, per path)', 0)
+    from .. import grules as _gr
+    n_nd = 0
+    for q_, f_ in sorted(m.functions.items()):
+        for x_, v_, path_ in _gr.loop_var_none_deref(f_):
+            n_nd += 1
+            ctx.refuted('R18n', m, enclosing_stmt(x_) or x_, '%s: the loop compares %s with None but reads %s on the path [%s], '
+                        'where it may still be None: with skip_none=False a None placeholder (an optional argument that '
+                        'was not given) raises AttributeError instead of being kept in its part'
+                        % (q_, v_, short(x_, 40), path_), construct='%s: %s on a possibly-None element' % (q_, short(x_, 40)))
+    ctx.holds('R18n', m, None, 'no attribute read on a possibly-None loop element in nodes.py', construct='None element scan',
+              trivial=True)
+
     return 'other', (
         'Decides per site that chunk text and chunk position use the same bounds, that only '
         'top-level chars nodes are searched, that the key-value result is type-consistent across '
